@@ -18,7 +18,8 @@ CLAIM = dict(
           "theorems. Out-of-range coordinates/cores raise ValueError in code and model."),
     technique="Lean 4 theorems over a hand-written model + differential correspondence + Lean spec as oracle")
 
-THEOREMS = []
+THEOREMS = ["region_word_selects", "single_chip", "add_inv", "insert_all", "compress_ok", "compress_err",
+            "compress_exact", "compress_sorted", "compress_keys", "chipsOf_spec"]
 
 RULE = ("target sets built from shapes: sparse points (whole grid or a small window), aligned full blocks of side "
         "4/16/64 (and 256 in the thorough tier) for a random core set with 0-3 holes (a hole removes some or all cores "
